@@ -68,6 +68,12 @@ Theorem compose_jet (t : tree gjoint) (base : PV) : pose_ok base ->
 Proof. unfold tkin. apply (outward_inv tstep pose_ok). intros b [j [A [B [C D]]]] [Hr Hm]. unfold tstep, pose_ok. cbn [proj1_sig fst snd]. split.
   - unfold pose_step. cbn [xf_compose fst]. repeat apply rot_mul; auto.
   - apply step_jet; auto. Qed.
+(** the joint hypothesis is closed under MobilizedBody::Reverse: the reversed joint (inverse transform for the same
+    coordinates, velocity by calcReverseMobilizerH_FM's formula) satisfies it whenever the forward one does *)
+Lemma reversed_joint_ok XPF XMB X V : tjoint_ok (mkTJ XPF XMB X V) ->
+  tjoint_ok (mkTJ XPF XMB (fun t => rev_X ROps (X t)) (rev_col ROps (rev_X ROps (X 0)) V)).
+Proof. intros [A [B [C D]]]. cbn [t_XPF t_XMB t_X t_V] in *. split; [ exact A | ]. split; [ exact B | ].
+  split; [ unfold rev_X, xf_inv; cbn [fst]; apply rot_T; exact C | apply (moves_inv X V C D) ]. Qed.
 (** Ground is a legitimate base *)
 Lemma ground_ok : pose_ok (fun _ => xf_id ROps, ((0,0,0),(0,0,0))).
 Proof. split; [ apply rot_id | apply moves_const ]. Qed.
